@@ -109,6 +109,14 @@ var l2CorpusPG = []corpusStmt{
 	{":many", "SELECT a.id FROM authors a WHERE a.title = $1", nil, nil, nil},
 	{":many", "SELECT a.id FROM authors a JOIN books b ON b.author_id = a.id WHERE a.title = $1", nil, nil, nil},
 	{":many", "SELECT a.id FROM authors a JOIN books b ON b.author_id = a.id WHERE b.title = $1 AND a.name = $2", nil, nil, nil},
+	// placeholder numbers with holes, with and without repeats below the hole: never a valid statement
+	{":many", "SELECT id FROM authors WHERE (name = $1 OR bio = $1) AND age > $3", nil, nil, nil},
+	{":many", "SELECT id FROM authors WHERE name = $2", nil, nil, nil},
+	{":exec", "UPDATE authors SET bio = $1 WHERE name = $1 AND id = $3", nil, nil, nil},
+	{":many", "SELECT id FROM authors WHERE name = $1 OR bio = $1 OR name = $1 OR id = $4", nil, nil, nil},
+	{":many", "SELECT id FROM authors WHERE id = $1 AND id <> $1 LIMIT $3", nil, nil, nil},
+	{":many", "SELECT id FROM authors WHERE name = $1 AND bio = $2 AND age = $2 AND id = $4", nil, nil, nil},
+	{":exec", "INSERT INTO authors (id, name, tags) VALUES ($1, $1, $3)", nil, nil, nil},
 }
 
 var l2CorpusMy = []corpusStmt{
